@@ -5,6 +5,10 @@ For every configuration (schema of a small built-in family, seed, phase subset, 
   B   in a fresh subprocess, PYTHONHASHSEED = h2            (fresh-process reproducibility, string-hash order must not matter)
   C   one more subprocess (PYTHONHASHSEED = h1) running A1, A2 (same seed twice, process-global caches warm the second time)
   E   a subprocess (PYTHONHASHSEED = h1) running W3 (same seed, 3 workers) and D (another seed)
+  Hk  one subprocess (PYTHONHASHSEED = h1) per PROCESS HISTORY of the family TLC enumerates from spec/ReproHistory.tla that contains a
+      "twin" (= a schema with the SAME operation labels but DIFFERENT parameter / body schemas): the history is tested in that process
+      one schema after another, the last run (the schema itself) must send what the fresh process A sent (expected outcome exported
+      by the spec: "as-fresh"; the label-keyed memo of ReproHistory.tla is refuted by exactly this history)
 against a deterministic, stateless scripted loopback server owned by this process; the SERVER LOG is the ground truth.  Logs are cut
 into phases by marker requests, projected to integer digests and paired into units; TLC validates every unit against Repro.tla
 (`ReproTrace`).  A rejected unit names the phase, the operation and the first divergent field.
@@ -106,14 +110,20 @@ def fam_links() -> dict:
     }}
 
 
-def fam_multi(dirname: str) -> str:
-    """All of the above in three files with relative $ref (root.json -> defs.json -> sub/more.json). Returns the root path."""
+def fam_multi_flat() -> dict:
+    """The operations of `multi` in one document without references (the same operation labels)."""
     p, b, l = fam_params(), fam_bodies(), fam_links()
     root = {"openapi": "3.0.2", "info": {"title": "multi", "version": "1"}, "paths": {}}
     root["paths"]["/items/{id}"] = {"get": p["paths"]["/items/{id}"]["get"], "put": b["paths"]["/items/{id}"]["put"]}
     root["paths"]["/search"] = p["paths"]["/search"]
     root["paths"]["/items"] = b["paths"]["/items"]
     root["paths"].update(l["paths"])
+    return root
+
+
+def fam_multi(dirname: str) -> str:
+    """All of the above in three files with relative $ref (root.json -> defs.json -> sub/more.json). Returns the root path."""
+    root = fam_multi_flat()
     root["paths"]["/items"]["post"]["requestBody"]["content"]["application/json"]["schema"] = {"$ref": "defs.json#/schemas/Item"}
     get = root["paths"]["/items/{id}"]["get"]
     get["parameters"][1] = {"$ref": "defs.json#/parameters/N"}
@@ -207,6 +217,47 @@ def fam_many(n: int = 32) -> dict:
     return {"openapi": "3.0.2", "info": {"title": "many", "version": "1"}, "paths": paths}
 
 
+def _twin_of(schema) -> dict:
+    """Another schema for the same slot: numbers become short lowercase words, everything else becomes a bounded integer."""
+    if isinstance(schema, dict) and schema.get("type") in ("integer", "number"):
+        return {"type": "string", "pattern": "^[a-z]{3,8}$"}
+    return {"type": "integer", "minimum": 1, "maximum": 100}
+
+
+TWIN_BODY = {"type": "object", "required": ["zz"], "additionalProperties": False,
+             "properties": {"zz": {"type": "integer", "minimum": 1, "maximum": 100}, "yy": {"type": "string", "pattern": "^[a-z]{3,8}$"}}}
+
+
+def twin(raw: dict) -> dict:
+    """The "twin" of a schema (spec/ReproHistory.tla: same label, other version): the same paths, methods, operation ids, parameter names
+    and locations, responses and links - hence the same operation labels - but EVERY parameter schema (path, query, header, cookie, formData)
+    and every payload schema is a different one."""
+    doc = copy.deepcopy(raw)
+    swagger = "swagger" in doc
+
+    def params(container: dict) -> None:
+        for i, prm in enumerate(container.get("parameters", [])):
+            if swagger and prm.get("in") == "body":
+                prm["schema"] = copy.deepcopy(TWIN_BODY)
+            elif swagger:
+                new = {k: prm[k] for k in ("name", "in", "required") if k in prm}
+                new.update(_twin_of(prm))
+                container["parameters"][i] = new
+            else:
+                prm["schema"] = _twin_of(prm.get("schema"))
+
+    for item in doc["paths"].values():
+        params(item)
+        for method, op in item.items():
+            if method == "parameters" or not isinstance(op, dict):
+                continue
+            params(op)
+            for media in op.get("requestBody", {}).get("content", {}).values():
+                media["schema"] = copy.deepcopy(TWIN_BODY)
+    doc["info"]["title"] += "-twin"
+    return doc
+
+
 FAMILY = {"many": fam_many, "params": fam_params, "bodies": fam_bodies, "links": fam_links, "rich": fam_rich, "swagger": fam_swagger}
 TEMPLATES = ["/items/{id}", "/search", "/items", "/users/{id}", "/users", "/things", "/broken"]
 _TEMPLATE_RE = [(t, re.compile("^" + re.sub(r"\{[^}]+\}", "[^/]*", t) + "$")) for t in TEMPLATES]
@@ -261,7 +312,32 @@ QUICK = [  # (schema, phases, modes[, extras: fixed seed / unexpected_methods])
 ]
 
 
-def configurations(ctx: Ctx) -> list[dict]:
+def histories_model() -> dict:
+    """spec/ReproHistory.tla: a content-keyed process-wide memo satisfies HistoryFree, a label-keyed one is refuted (by the history
+    <<twin, self>>); the reachable histories of the content-keyed model are the family of process histories the driver concretises."""
+    by_content = tlc.require_ok(tlc.run_tlc("ReproHistory", "ReproHistory_content.cfg", workers=1, timeout=300), "ReproHistory content keys")
+    by_label = tlc.require_ok(tlc.run_tlc("ReproHistory", "ReproHistory_label.cfg", workers=1, timeout=300), "ReproHistory label keys")
+    if by_content.violated or "HistoryFree" not in by_label.violated:
+        raise tlc.TLCFailure("ReproHistory: expected HistoryFree to hold for content keys and to be refuted for label keys: %s / %s" % (
+            by_content.violated, by_label.violated))
+    family = []
+    for p in by_content.prints:
+        if isinstance(p, list) and len(p) == 2 and p[0] == "CASE":
+            view = json.loads(p[1]) if isinstance(p[1], str) else p[1]
+            if view["expect"] != "as-fresh":
+                raise tlc.TLCFailure("ReproHistory: unexpected oracle value %r" % (view,))
+            if view["hist"] not in family:
+                family.append(view["hist"])
+    family.sort(key=lambda h: (len(h), h))
+    if not any("twin" in h for h in family) or any(h[-1] != "self" for h in family):
+        raise tlc.TLCFailure("ReproHistory: the exported family has no history with a twin / a malformed history: %s" % family)
+    steps = [l.split("<", 1)[1].split(" line", 1)[0] for l in by_label.counterexample if l.startswith("State") and "<" in l and "Initial" not in l]
+    return {"states_content_keys": by_content.distinct, "states_label_keys": by_label.distinct, "family": family, "refuting_history": steps}
+
+
+def configurations(ctx: Ctx, histories: list | None = None) -> list[dict]:
+    """`histories`: the process histories (ReproHistory.tla) that contain a twin; each becomes one more child process of a configuration."""
+    histories = [h for h in (histories or []) if "twin" in h]
     rng = random.Random(ctx.seed)
     out = []
     if ctx.quick:
@@ -310,7 +386,9 @@ def configurations(ctx: Ctx) -> list[dict]:
                     "diff": (not ctx.quick) or i % 2 == 0, "unexpected_methods": extras.get("unexpected_methods"),
                     "unique_inputs": bool(extras.get("unique_inputs")), "continue_on_failure": bool(extras.get("continue_on_failure")),
                     "max_failures": extras.get("max_failures"), "front": extras.get("front", "engine"),
-                    "deterministic": bool(extras.get("deterministic")), "workers_n": extras.get("workers_n", 3)})
+                    "deterministic": bool(extras.get("deterministic")), "workers_n": extras.get("workers_n", 3),
+                    # budget: every second configuration (in the quick tier exactly those that have no different-seed run D)
+                    "histories": histories if i % 2 == 1 else []})
     return out
 
 
@@ -341,6 +419,15 @@ def run_child(cfg: dict, workdir: str, name: str, hashseed: int, runs: list[dict
                     json.dump(schema["raw"], fd)
                 os.replace(path + ".%s.tmp" % name, path)
             schema = {"kind": "path", "path": path}
+    if any(r.get("schema") == "twin" for r in runs):
+        raw = twin(fam_multi_flat() if cfg["schema"] == "multi" else FAMILY[cfg["schema"]]())
+        source = {"kind": "dict", "raw": raw}
+        if cfg.get("front") == "cli":
+            path = os.path.join(workdir, "twin-%s.json" % name)
+            with open(path, "w") as fd:
+                json.dump(raw, fd)
+            source = {"kind": "path", "path": path}
+        runs = [dict(r, schema=source) if r.get("schema") == "twin" else r for r in runs]
     with LoopbackServer(behaviour) as srv:
         job = os.path.join(workdir, "job-%s.json" % name)
         with open(job, "w") as fd:
@@ -429,12 +516,16 @@ def run_config(args) -> dict:
             # a failure limit stops a multi-worker run at a scheduling-dependent moment: the bag clause speaks about complete runs
             ("E", cfg["h1"], ([dict(one, tag="W3", workers=cfg.get("workers_n", 3))] if not cfg.get("max_failures") else [])
              + ([dict(one, tag="D", seed=cfg["seed2"])] if cfg.get("diff", True) and not cfg.get("deterministic") else []))]
+    for k, h in enumerate(cfg.get("histories") or []):
+        # a process history with a twin: tested one after another in ONE process, the last one is the schema itself (tag Hk)
+        tags = ["H%d.%d" % (k, j) for j in range(len(h) - 1)] + ["H%d" % k]
+        plan.append(("H%d" % k, cfg["h1"], [dict(one, tag=t, **({"schema": "twin"} if kind == "twin" else {})) for t, kind in zip(tags, h)]))
     plan = [p for p in plan if p[2]]
-    plan = [p for p in plan if p[0] in cfg.get("only_children", ["A", "B", "C", "E"])]
+    plan = [p for p in plan if p[0] in cfg.get("only_children", ["A", "B", "C", "E"]) or p[0].startswith("H")]
     t0 = time.time()
     if cfg["schema"] == "multi":
         fam_multi(os.path.join(wd, "schema"))
-    with ThreadPoolExecutor(max_workers=4) as ex:
+    with ThreadPoolExecutor(max_workers=len(plan)) as ex:
         res = list(ex.map(lambda p: run_child(cfg, wd, p[0], p[1], p[2]), plan))
     runs: dict = {}
     for r in res:
@@ -449,6 +540,8 @@ PAIRS = [  # (tag a, tag b, same seed, workers a, workers b, how)
     ("A", "W3", True, 1, 3, "workers-1-vs-3"),
     ("A", "D", False, 1, 1, "different-seed"),
 ]
+HISTORY_HOW = "after-other-schema-in-same-process"      # ("A", "Hk"): the process of Hk tested a history with a twin before
+HIST_OF = {"A2": ["self"]}                              # what the process of run b tested before run b (Repro.tla `hist`)
 
 
 def build_units(results: list[dict]):
@@ -458,7 +551,12 @@ def build_units(results: list[dict]):
         cfg, runs = res["cfg"], res["runs"]
         dg = Digests()
         index: dict = {}
-        for a, b, same, wa, wb, how in PAIRS:
+        hist_of = dict(HIST_OF)
+        pairs = list(PAIRS)
+        for k, h in enumerate(cfg.get("histories") or []):
+            hist_of["H%d" % k] = list(h[:-1])
+            pairs.append(("A", "H%d" % k, True, 1, 1, HISTORY_HOW))
+        for a, b, same, wa, wb, how in pairs:
             if a not in runs or b not in runs:
                 continue
             for ph in cfg["phases"]:
@@ -471,7 +569,7 @@ def build_units(results: list[dict]):
                 if wb > 1:
                     wb = cfg.get("workers_n", 3)
                 units.append({"a": index[(a, ph)], "b": index[(b, ph)], "ph": ph, "same": same, "wa": wa, "wb": wb, "stateless": True,
-                              "limited": bool(cfg.get("max_failures")), "how": how})
+                              "limited": bool(cfg.get("max_failures")), "how": how, "hist": hist_of.get(b, [])})
                 meta.append({"cfg": cfg, "a": a, "b": b, "ph": ph, "how": how, "dg": dg, "runs": runs})
     return logs, units, meta
 
@@ -523,6 +621,10 @@ def attribute(m: dict, rejected_hows: set[str]) -> str:
         return "per-process-entropy"
     if how == "second-run-in-warm-process":
         return "process-global-state" if "fresh-processes-same-hashseed" not in rejected_hows else "per-process-entropy"
+    if how == HISTORY_HOW:
+        if "fresh-processes-same-hashseed" in rejected_hows:
+            return "per-process-entropy"
+        return "process-global-state" if "second-run-in-warm-process" in rejected_hows else "process-history"
     seq = rejected_hows - {"workers-1-vs-3"}
     if seq:     # the single-worker runs of this configuration and phase already disagree with each other: same source, not the worker count
         return attribute(dict(m, how=sorted(seq)[0]), rejected_hows)
@@ -559,7 +661,7 @@ def describe(m: dict, logs: list, u: dict, line: int, why: str) -> tuple[str, st
 
 def evaluate(ctx: Ctx, out: Outcome, results: list[dict], tag: str = "") -> dict:
     stats = {"units": 0, "accepted": 0, "states": 0, "generated": 0, "tlc_s": 0.0, "lines": 0, "constrained": 0, "vacuous": False, "diff_units": 0,
-             "diff_differ": 0}
+             "diff_differ": 0, "history_units": 0, "history_units_traffic": 0, "twin_differs": 0}
     samples = []
     for c0 in range(0, len(results), CONFIGS_PER_TLC):
         chunk = results[c0:c0 + CONFIGS_PER_TLC]
@@ -576,6 +678,15 @@ def evaluate(ctx: Ctx, out: Outcome, results: list[dict], tag: str = "") -> dict
         stats["diff_units"] += len(diff)
         stats["diff_differ"] += sum(1 for u in diff if logs[u["a"] - 1]["lines"] != logs[u["b"] - 1]["lines"])
         stats["vacuous"] = stats["vacuous"] or (vacuous and len(chunk) >= 4)
+        for i, u in enumerate(units):
+            if u["how"] != HISTORY_HOW:
+                continue
+            stats["history_units"] += 1
+            stats["history_units_traffic"] += bool(logs[u["a"] - 1]["lines"] or logs[u["b"] - 1]["lines"])
+            # vacuity guard: the twin tested earlier in that process really is another schema (its traffic differs from the schema's own)
+            wire = lambda run_: [(r.method, r.target, r.body) for r in run_["phases"].get(u["ph"], [])]  # noqa: E731
+            twin_run = meta[i]["runs"].get("%s.%d" % (meta[i]["b"], u["hist"].index("twin")))
+            stats["twin_differs"] += bool(twin_run is not None and wire(twin_run) != wire(meta[i]["runs"]["A"]))
         for i, u in enumerate(units):
             if python_verdict(logs, u) != (i not in rejected):
                 raise tlc.TLCFailure("TLC and the driver disagree on unit %d (%s %s %s)" % (i, meta[i]["cfg"]["id"], u["ph"], u["how"]))
@@ -613,7 +724,8 @@ def digest_model() -> dict:
 def run(ctx: Ctx) -> Outcome:
     out = Outcome()
     model = digest_model()
-    cfgs = configurations(ctx)
+    hmodel = histories_model()
+    cfgs = configurations(ctx, hmodel["family"])
     t1 = time.time()
     with ThreadPoolExecutor(max_workers=12 if ctx.quick else 8) as ex:
         results = list(ex.map(run_config, [(c, ctx.work) for c in cfgs]))
@@ -621,6 +733,8 @@ def run(ctx: Ctx) -> Outcome:
     st = evaluate(ctx, out, results)
     if st["vacuous"] or (st["diff_units"] and not st["diff_differ"]):
         raise tlc.TLCFailure("vacuous harness: no pair of runs with different seeds differs (%d compared)" % st["diff_units"])
+    if st["history_units"] and not st["twin_differs"]:
+        raise tlc.TLCFailure("vacuous harness: no twin schema sent traffic that differs from the schema's own (%d history units)" % st["history_units"])
     # seed -1: the stateful suite that is re-run after a failure is seeded with 0 - make sure that path was really taken
     rollover = sum(1 for r in results if r["cfg"]["seed"] == -1 and "stateful" in r["cfg"]["phases"]
                    and any(json.loads(f)[0] == "STATEFUL_TESTING" for f in r["runs"]["A"]["failures"]))
@@ -629,15 +743,21 @@ def run(ctx: Ctx) -> Outcome:
     requests_total = sum(len(rs) for r in results for run_ in r["runs"].values() for rs in run_["phases"].values())
     outside = sum(run_["outside"] for r in results for run_ in r["runs"].values())
     out.coverage = {
-        "states": st["states"] + model["states_per_operation"] + model["states_shared"], "transitions": st["generated"],
+        "states": st["states"] + model["states_per_operation"] + model["states_shared"] + hmodel["states_content_keys"] + hmodel["states_label_keys"],
+        "transitions": st["generated"],
         "digest_model(ReproDigest.tla)": model,
+        "history_model(ReproHistory.tla)": hmodel,
+        "process_histories_with_a_twin_run": sum(len(c["histories"]) for c in cfgs),
+        "history_units": st["history_units"], "history_units_with_traffic": st["history_units_traffic"],
+        "twin_runs_with_traffic_that_differs_from_the_schema's": st["twin_differs"],
         "configurations_derandomised_without_seed": sum(1 for c in cfgs if c.get("deterministic")),
         "traces_validated_against_impl": st["units"],
         "samples": st["samples"],
         "evaluations": requests_total,
         "distinct_nontrivial": st["constrained"],
         "rule": "%d configurations (schema of the built-in family x phase subset x generation modes x seed derived from VERIF_SEED), each run 6 times "
-                "(A, B fresh subprocesses with different PYTHONHASHSEED; A1, A2 in one warm process; W3 = 3 workers; D = another seed, in half of the quick configurations); one unit per "
+                "(A, B fresh subprocesses with different PYTHONHASHSEED; A1, A2 in one warm process; W3 = 3 workers; D = another seed, in half of the quick configurations) "
+                "plus, in every second configuration, one process per history of ReproHistory.tla's family with a twin (twin schema first, then the schema: Hk vs A); one unit per "
                 "(comparison, phase); non-trivial = constrained unit (same seed) with traffic" % len(cfgs),
         "exhaustive": False,
         "why_not_exhaustive": "the space seeds x schemas x configurations cannot be enumerated by TLC; Repro.tla is a trace specification, every "
@@ -710,15 +830,17 @@ def selftest(ctx: Ctx) -> bool:
     ]
 
     def unit(a, b, same=True, wa=1, wb=1, ph="fuzzing"):
-        return {"a": a, "b": b, "ph": ph, "same": same, "wa": wa, "wb": wb, "stateless": True, "limited": False, "how": "selftest"}
+        return {"a": a, "b": b, "ph": ph, "same": same, "wa": wa, "wb": wb, "stateless": True, "limited": False, "how": "selftest", "hist": []}
 
     units = [unit(1, 2), unit(1, 3), unit(1, 4), unit(1, 5, wb=3), unit(1, 6, wb=3), unit(1, 7), unit(1, 3, same=False),
              unit(1, 6, wb=3, ph="stateful"), unit(1, 5),
              dict(unit(1, 7), limited=True),        # a failure limit: one trailing in-flight request may be missing - accepted
              dict(unit(1, 8), limited=True),        # ... but not two
-             dict(unit(1, 3), limited=True)]        # ... and never a difference inside the common prefix
+             dict(unit(1, 3), limited=True),        # ... and never a difference inside the common prefix
+             dict(unit(1, 2), hist=["twin"]),       # another schema was tested earlier in the process of run b: same clause - accepted
+             dict(unit(1, 3), hist=["twin"])]       # ... and a difference after such a history is rejected like any other
     rejected, accepted, _, _, vacuous, _ = validate(ctx, logs, units, "-selftest")
-    expect = {1: (3, "body"), 2: (5, "failures"), 4: (1, "bag"), 5: (4, "length"), 8: (1, "operation"), 10: (3, "length"), 11: (3, "body")}
+    expect = {1: (3, "body"), 2: (5, "failures"), 4: (1, "bag"), 5: (4, "length"), 8: (1, "operation"), 10: (3, "length"), 11: (3, "body"), 13: (3, "body")}
     if rejected != expect or vacuous:
         print("selftest: TLC rejected", rejected, "expected", expect, "vacuous", vacuous)
     # a data set whose different-seed units are all equal must be flagged as vacuous
